@@ -436,12 +436,17 @@ class StmtMixin:
         yield st, NORMAL
 
     def ex_With(self, node, st):
-        # only `with warnings.catch_warnings():` is in the subset: executed as its body
+        # in the subset: `with warnings.catch_warnings():` and `with <file object>:` (no `as`): executed as the body
         for item in node.items:
             e = item.context_expr
-            ok = isinstance(e, ast.Call) and isinstance(e.func, ast.Attribute) and e.func.attr == 'catch_warnings'
-            if not ok:
-                raise Unsupported("with statement other than warnings.catch_warnings()")
+            if isinstance(e, ast.Call) and isinstance(e.func, ast.Attribute) and e.func.attr == 'catch_warnings':
+                continue
+            if item.optional_vars is None:
+                st, v = self.ev1(e, st)
+                if isinstance(v, VObj) and v.classes == ('TextIO',):
+                    self.assumptions.add("`with <file>:` runs its body and then only closes the file")
+                    continue
+            raise Unsupported("with statement other than warnings.catch_warnings() / an open file")
         yield from self.exec_block(node.body, st)
 
     def ex_Break(self, node, st):
